@@ -49,7 +49,7 @@ def replay(rec: Dict[str, Any]) -> List[Tuple[str, Dict[str, Any], str]]:
             f.append("forbidden")
         return "+".join(f) or "plain"
 
-    for ue in (True, False):
+    for ue in ((True, False) if "\\" not in rel + base else (False,)):      # a backslash is an ordinary character only with escape decoding off
         try:
             r = RelativeJSONPointer(rel, unicode_escape=ue)
         except BaseException as e:  # noqa: BLE001
